@@ -257,6 +257,17 @@ func (vm *VM) strBinop(op token.Token, x, y Value) Value {
 	case token.ADD:
 		return concatStr(x, y)
 	case token.EQL, token.NEQ:
+		// the JSON text of a value is never the empty string
+		if o, isO := x.(*Opaque); isO && o.Blob != nil {
+			if ys, ok := y.(string); ok && ys == "" {
+				return op == token.NEQ
+			}
+		}
+		if o, isO := y.(*Opaque); isO && o.Blob != nil {
+			if xs, ok := x.(string); ok && xs == "" {
+				return op == token.NEQ
+			}
+		}
 		c, ok := strEq(x, y)
 		if !ok {
 			vmErr("cannot decide equality of %s and %s", describe(x), describe(y))
